@@ -2,6 +2,7 @@ import Model.Base.Proto
 import Model.Proc.FilterEval
 import Model.Spec.FilterSem
 import Model.Proc.FilterText
+import Model.Proc.FilterHeap
 
 namespace Driver.C06
 open Proto Proc.FilterEval
@@ -185,7 +186,16 @@ def handle (l : Line) : IO Unit := do
         let aT := filterApply fT res
         s!"ttest={bits n mT.test} tall={b01 mT.all} tany={b01 mT.any} tapply={showIdx aT.1.values} tflag={b01 aT.2}"
       | .error _ => "ttest=! tall=! tany=! tapply=! tflag=!"
-    IO.println s!"obs {id} new=ok tnew={tnew} perr=none pv={showHexList pv} n={n} test={bits n mt.test} oob={oob} all={b01 mt.all} any={b01 mt.any} apply={showIdx ap.1} flag={b01 ap.2} fapply={showIdx ap2.1.values} fflag={b01 ap2.2} omiss={omiss} glue=ok {tfields}"
+    -- heap model (in-place masks): two Match calls on one heap, both read at the end
+    let hfield :=
+      if kind == "p" then "htest=na"
+      else
+        let r1 := Proc.FilterHeap.matchH re e res []
+        let r2 := Proc.FilterHeap.matchH re e res r1.2
+        let m1 := r1.1.read r2.2
+        let m2 := r2.1.read r2.2
+        s!"htest={bits n m1.test}/{bits n m2.test}"
+    IO.println s!"obs {id} new=ok tnew={tnew} perr=none pv={showHexList pv} n={n} test={bits n mt.test} oob={oob} all={b01 mt.all} any={b01 mt.any} apply={showIdx ap.1} flag={b01 ap.2} fapply={showIdx ap2.1.values} fflag={b01 ap2.2} omiss={omiss} glue=ok {tfields} {hfield}"
     -- S layer: the specification
     let den : Nat → Bool := fun i =>
       Spec.FilterSem.denote re res i e && projs.flatten.all fun fld => Spec.FilterSem.inFixed excl fld res
